@@ -217,7 +217,7 @@ def _check_tree_level(cx: _Ctx, sh: Shape, tree):
     cx.eq("Tree.count", "ensures result == number of nodes", lambda: tree.count, len(sh.nodes))
     cx.eq("Tree.__len__", "ensures result == number of nodes", lambda: len(tree), len(sh.nodes))
     cx.eq("Tree.calc_height", "ensures result == maximum depth of all nodes", lambda: tree.calc_height(), sh.height[id(sh.root)])
-    cx.eq("Tree.__bool__", "ensures an empty tree is falsy", lambda: bool(tree), bool(sh.nodes))
+    cx.eq("Tree.__len__", "ensures an empty tree is falsy (bool(tree) == (count > 0))", lambda: bool(tree), bool(sh.nodes))
     root = sh.root
     cx.eq("Node.is_system_root", "ensures true for the system root", lambda: tree.system_root.is_system_root(), True)
     cx.is_("Tree.system_root", "ensures result is the invisible root", lambda: tree.system_root, root)
